@@ -263,6 +263,16 @@ Fixpoint not_match (sets : list (list matcher)) (p : list byte) : verdict :=
   | ms :: r => match mset_match ms p with Yes => No | No => not_match r p | v => v end
   end.
 
+(* MatcherSets.AnyMatch: the OR over a route's matcher sets.  The first set that matches wins, a set
+   that needs more data or fails stops the evaluation with that answer, no sets at all match. *)
+Fixpoint any_match_go (sets : list (list matcher)) (p : list byte) : verdict :=
+  match sets with
+  | [] => No                                   (* after a non-empty loop the result is "no set matched" *)
+  | ms :: r => match mset_match ms p with No => any_match_go r p | v => v end
+  end.
+Definition any_match (sets : list (list matcher)) (p : list byte) : verdict :=
+  match sets with [] => Yes | _ => any_match_go sets p end.
+
 (* ------------------------------------------------------------------ http request-line gate *)
 Definition http_word : list byte := unhex "20485454502f".   (* " HTTP/" *)
 
